@@ -997,8 +997,16 @@ def run_service(ctx, case):
     problem = build_problem(case)
     config = svz.StudyConfig.from_problem(problem)
     config.algorithm = case['name']
-    study = clients.Study.from_study_config(
-        config, owner='c03', study_id=f'case-{ctx.shard}-{svc["n"]}')
+    # every other study is created under the name of a study that an earlier case deleted
+    # (and saw deleted): a new study with another search space and algorithm, on the same
+    # server process - nothing kept about the old one may shape its suggestions
+    free = svc.setdefault('free_names', [])
+    if free and svc['n'] % 2 == 0:
+      study_id = free.pop(0)
+      ctx.count('service_studies_created_under_a_deleted_name')
+    else:
+      study_id = f'case-{ctx.shard}-{svc["n"]}'
+    study = clients.Study.from_study_config(config, owner='c03', study_id=study_id)
   except Exception as e:  # pylint: disable=broad-except
     return checked, _refused(ctx, case, 'create-study', e)
   try:
@@ -1050,6 +1058,10 @@ def run_service(ctx, case):
         return checked, _refused(ctx, case, 'complete', e)
   try:
     study.delete()
+    try:
+      clients.Study.from_resource_name(study.resource_name)
+    except Exception:  # pylint: disable=broad-except
+      svc.setdefault('free_names', []).append(study_id)    # really gone: the name may be used again
   except Exception:  # pylint: disable=broad-except
     ctx.count('service_study_delete_failed')
   return checked, ('DONE',)
